@@ -115,6 +115,11 @@ def cases(tier, seed):
         for vt in ("dense", "csr", "sympy"):
             for dg in ("indices", "eigvec", "pairs", "implicit"):
                 out.append(dict(kind="op2bs", base=b, vtype=vt, desig=dg, seed=seed))
+    # the blocks to diagonalise fully given as any iterable of block indices (one-shot iterables included)
+    for b in ("h21", "h22", "h111", "n21"):
+        for blocks_ in ([0], [1], [0, 1]):
+            for form in ("tuple", "set", "ndarray", "range", "iter", "generator", "map", "dict-keys", "reversed"):
+                out.append(dict(kind="fdforms", base=b, blocks=blocks_, form=form, seed=seed))
     for N in (12, 24, 40):
         for nsub in (2, 3):
             for herm in (True, False):
@@ -638,6 +643,49 @@ def run_analytic(case):
     V = []
     compare(got, can, True, f"analytic {case['fn']}", V)
     return V, nontrivial_of(can)
+
+
+def run_fdforms(case):
+    from pymablock import block_diagonalize
+    from pymablock.series import one, zero
+
+    cfg, values = base_values(case["base"], 1, case["seed"])
+    herm = cfg["hermitian"]
+    sizes = cfg["sizes"]
+    nb = len(sizes)
+    blocks_ = [b_ for b_ in case["blocks"] if b_ < nb]
+    h0 = np.diag(np.array(BASES[case["base"]]["E"], dtype=float))
+    H = {(0,): h0, **{o: np.array(m, dtype=complex) for o, m in values.items()}}
+    kw = dict(subspace_indices=block_of(sizes), hermitian=herm)
+    form = case["form"]
+    given = {
+        "tuple": lambda: tuple(blocks_), "set": lambda: set(blocks_), "ndarray": lambda: np.array(blocks_), "range": lambda: range(min(blocks_), max(blocks_) + 1),
+        "iter": lambda: iter(list(blocks_)), "generator": lambda: (b_ for b_ in blocks_), "map": lambda: map(int, blocks_),
+        "dict-keys": lambda: dict.fromkeys(blocks_).keys(), "reversed": lambda: reversed(blocks_),
+    }[form]()
+    if form == "range" and list(given) != blocks_:
+        return [], False
+    ref = block_diagonalize(dict(H), fully_diagonalize=list(blocks_), **kw)
+    try:
+        alt = block_diagonalize(dict(H), fully_diagonalize=given, **kw)
+    except (ValueError, TypeError, NotImplementedError):
+        return [], False  # refusing an exotic container is acceptable; answering differently is not
+    V = []
+    for name, sr, sa in zip(("H_tilde", "U", "U_inv"), ref, alt):
+        for n in (0, 1, 2, 3):
+            for i in range(nb):
+                for j in range(nb):
+                    x, y = sr[i, j, n], sa[i, j, n]
+                    if x is zero or y is zero or x is one or y is one:
+                        if x is not y and not (x is zero and np.abs(np.asarray(y.toarray() if hasattr(y, "toarray") else y)).max(initial=0) < 1e-12) \
+                                and not (y is zero and np.abs(np.asarray(x.toarray() if hasattr(x, "toarray") else x)).max(initial=0) < 1e-12):
+                            V.append(f"{name}[{i},{j},{n}]: fully_diagonalize given as {form} differs from the list form (sentinel)")
+                        continue
+                    dx = np.asarray(x.toarray() if hasattr(x, "toarray") else x)
+                    dy = np.asarray(y.toarray() if hasattr(y, "toarray") else y)
+                    if dx.shape != dy.shape or np.abs(dx - dy).max(initial=0) > 1e-9 * max(1.0, np.abs(dx).max(initial=0)):
+                        V.append(f"{name}[{i},{j},{n}]: fully_diagonalize given as {form} differs from the list form")
+    return V[:3], True
 
 
 def run_interleaved(case):
